@@ -1407,7 +1407,11 @@ def replay(ctx, rep):
         from harness.props import c19_stats
         names = ct.Names()
         k = rep['stats_model']['kind']
-        term = c19_stats.model_case(random.Random(rep['stats_model']['seed']), k, lambda x: names.p(str(x)))
+        try:
+            term = c19_stats.model_case(random.Random(rep['stats_model']['seed']), k, lambda x: names.p(str(x)))
+        except Exception as e:
+            print('stats_model', rep['stats_model'], 'tool raises on valid input:', type(e).__name__, e)
+            return 1
         v = ctx.run_cases('replay', 'C19.Model C19.Stats', 'stcase', [term], 'stverdict')[0]
         print('stats_model', rep['stats_model'], 'tags', v)
         return 1 if v else 0
